@@ -11,6 +11,8 @@ use lru::LruCache;
 use n0_error::{Result, StdResultExt};
 use n0_mainline::{Dht, DhtBuilder, MutableItem};
 pub(crate) use signed_packets::Options;
+#[cfg(feature = "verif-hooks")]
+pub(crate) use signed_packets::verif_c39;
 use tokio::sync::Mutex;
 use tracing::{debug, trace, warn};
 use ttl_cache::TtlCache;
@@ -65,6 +67,13 @@ impl ZoneStore {
         Ok(Self::new(packet_store, metrics))
     }
 
+    /// verif-hooks: in-memory store (same as the test-only [`Self::in_memory`]).
+    #[cfg(feature = "verif-hooks")]
+    pub(crate) fn verif_in_memory(options: Options, metrics: Arc<Metrics>) -> Result<Self> {
+        let packet_store = SignedPacketStore::verif_in_memory(options, metrics.clone())?;
+        Ok(Self::new(packet_store, metrics))
+    }
+
     /// Configure a mainline DHT client for resolution of packets as a fallback.
     ///
     /// This will be used only as a fallback if there is no local info available.
@@ -116,10 +125,14 @@ impl ZoneStore {
             }
             cache.invalidations
         };
+        #[cfg(feature = "verif-hooks")]
+        crate::verif_hooks::sched::pause("zonestore.resolve.after_check").await;
 
         // Check persistent store
         if let Some(packet) = self.store.get(pubkey).await? {
             trace!(packet_timestamp = ?packet.timestamp(), "store hit");
+            #[cfg(feature = "verif-hooks")]
+            crate::verif_hooks::sched::pause("zonestore.resolve.after_get").await;
             let mut cache = self.cache.lock().await;
             let result = if cache.invalidations == invalidations {
                 cache.insert_and_resolve(&packet, name, record_type)
@@ -191,6 +204,8 @@ impl ZoneStore {
         let pubkey = PublicKeyBytes::from_signed_packet(&signed_packet);
         if self.store.upsert(signed_packet).await? {
             self.metrics.pkarr_publish_update.inc();
+            #[cfg(feature = "verif-hooks")]
+            crate::verif_hooks::sched::pause("zonestore.insert.after_upsert").await;
             self.cache.lock().await.remove(&pubkey);
             Ok(true)
         } else {
